@@ -491,7 +491,7 @@ def run(ctx):
                     ok = "data_file_id" in derive(ix, ops["data_file_id"]).names and "offset" in derive(ix, ops["offset"]).names and "offset" not in derive(ix, ops["data_file_id"]).names
         ctx.ob("PROV", "find_entry|copy", ok, "IndexEntry{data_file_id, offset} copies entry.data.data_file_id and entry.data.offset (not swapped)", fb.file, fb.line)
         cmp_ok = False
-        for c in prog.closures_of("sqpack::index::SqPackIndex::find_entry") + prog.closures_of("sqpack::index::SqPackIndex::exists"):
+        for c in prog.deep_bodies("sqpack::index::SqPackIndex::find_entry") + prog.deep_bodies("sqpack::index::SqPackIndex::exists"):
             for _bi, t in c.calls():
                 if "PartialEq" in (t.get("res") or "") and "Hash" in (t.get("res") or ""):
                     cmp_ok = True
